@@ -121,6 +121,18 @@ def check(ctx):
     ff = find("a = a.ffill()", tl)
     ok = len(ff) == 1 and any(unparse(e) == "skipna" and pol for e, pol in cfg_of(tl).facts(ff[0][0])) and any(unparse(r.value) == "a.tail(n=1).squeeze()" for r in returns(tl))
     ctx.ob("ALG.scan-carry.last-valid", tl, "skipna: a = a.ffill() then the last row -- per column the last non-missing value", ok, "" if ok else "the carried row is not forward-filled per column: a column that is NaN in the last row loses its running total in every later partition")
+    # ---------------- centered rolling windows: rows taken from the previous / next partition
+    rr = ctx.model.klass("dask/dataframe/dask_expr/_rolling.py", "RollingReduction").own_methods["_lower"]
+    b_ = find("before = self.window // 2", rr)
+    a_ = find("after = self.window - before - 1", rr)
+    ok = len(b_) == 1 and len(a_) == 1 and any("self.kwargs.get('center')" in unparse(e) and pol for e, pol in cfg_of(rr).facts(b_[0][0])) and b_[0][0].lineno < a_[0][0].lineno
+    ctx.ob("ALG.rolling.center-overlap", rr, "center=True: before = window // 2 rows from the previous partition, after = window - before - 1 from the next (pandas centers even windows to the right)", ok, "" if ok else "before/after are exchanged: an even centered window takes one row too few from the previous partition")
+    # ---------------- scalar carries of cummax/cummin (Series path) use the matching extremum
+    for fn, want in (("cummax_aggregate", "max(x, y)"), ("cummin_aggregate", "min(x, y)")):
+        f_ = meth.func(fn)
+        sc = [r for r in returns(f_) if isinstance(r.value, ast.Call) and call_name(r.value) in ("max", "min")]
+        ok = len(sc) == 1 and unparse(sc[0].value) == want
+        ctx.ob("ALG.scan-monoid.scalar", f_, f"{fn}: scalar carries are combined with {want}", ok, "" if ok else f"uses {unparse(sc[0].value) if sc else None}: Series.{fn[:6]}() is wrong from the third partition on")
 
 
 VARIANTS = [
